@@ -66,9 +66,13 @@ func (genState GenesisState) Validate() error {
 				return fmt.Errorf("deposit request at index %d has wrong minted pool coin: %s", i, req.MintedPoolCoin)
 			}
 			pair := pairMap[pool.PairId]
-			if req.DepositCoins.AmountOf(pair.BaseCoinDenom).IsZero() ||
-				req.DepositCoins.AmountOf(pair.QuoteCoinDenom).IsZero() {
+			if !req.DepositCoins.AmountOf(pair.BaseCoinDenom).Add(req.DepositCoins.AmountOf(pair.QuoteCoinDenom)).IsPositive() {
 				return fmt.Errorf("deposit request at index %d has wrong deposit coins: %s", i, req.DepositCoins)
+			}
+			for _, coin := range req.DepositCoins {
+				if coin.Denom != pair.BaseCoinDenom && coin.Denom != pair.QuoteCoinDenom {
+					return fmt.Errorf("deposit request at index %d has wrong deposit coins: %s", i, req.DepositCoins)
+				}
 			}
 			if set, ok := depositReqSet[req.PoolId]; ok {
 				if _, ok := set[req.Id]; ok {
